@@ -1,5 +1,6 @@
 import OsacaVerif.Model.Glue
 import OsacaVerif.Model.Report
+import OsacaVerif.Spec.Composed
 /-
   From FILE TEXT to the analysis and its report: `osaca.osaca.inspect` under `--fixed` on an x86 or an
   AArch64 file, composed from the stage models — nothing is re-modelled here.  One definition for both
@@ -21,6 +22,10 @@ import OsacaVerif.Model.Report
         │  selection ∘ graph ∘ critical path ∘ LCD ∘ column sums     Pipeline.run            (C11Pipeline)
         ▼
       Pipeline.Analysis ── Pipeline.toReport ──► Report.Analysis ── Report.fullAnalysis ──► text  (C13)
+
+  The DEFAULT (optimal) scheduling path is at the end of this file: `analyseWith … P`, the same composition
+  with the per-line pressure vectors the balancer left SUPPLIED, and `OptimalOutcome`, the relation "admissible
+  outcome under optimal scheduling" (`analyse = analyseWith uniformP`, `Props/EndToEndOpt.lean`).
 
   Exceptions of the Python code are outcomes.  One difference in *when* they surface: the model
   computes the per-line data of every selected line eagerly (also `get_reg_changes`, which the
@@ -251,5 +256,146 @@ abbrev analyseX86 (m : Model) (o : Opts) (file : Txt) : Outcome := analyse .x86 
 /-- the AArch64 instance: `ParseA64.parseFile`, `Glue.formA64`, AArch64 roles with write-back, `.`-suffix
     fall-back, pre- and post-indexed composition, `p_index_latency` on write-back edges -/
 abbrev analyseA64 (m : Model) (o : Opts) (file : Txt) : Outcome := analyse .a64 m o file
+
+/-! ### optimal scheduling (the default: without `--fixed`)
+
+  `osaca.inspect` without `--fixed` calls `ArchSemantics.assign_optimal_throughput(kernel)` twice between
+  `add_semantics` and `KernelDG`: a greedy balancer that moves `INC = 0.01` cycles of a micro-op at a time from the
+  busiest to the least busy of its ports.  Its control flow depends on floating-point noise, so it is modelled as
+  a RELATION (`Model/Balance.lean`, C01/C02), not as a function.  What it changes is the `port_pressure` vector of
+  the kernel's lines and nothing else.  `analyseWith … P` is `analyse` with these vectors SUPPLIED: the same
+  composition, the pressure of line `n` replaced by `P n`; `OptimalOutcome` says which `P` are admissible. -/
+
+/-- per line number: the pressure vector the scheduler left on that line (`none`: the uniform one) -/
+abbrev Pressures := Nat → Option (List Rat)
+
+/-- `--fixed`: no line is touched -/
+def uniformP : Pressures := fun _ => none
+
+def withPressure (P : Pressures) (l : Line) : Line :=
+  match P l.pl.num with
+  | some v => { l with pl := { l.pl with sem := { l.pl.sem with pressure := v } } }
+  | none => l
+
+/-- **`osaca --arch <model> [--lines …] [--ignore-unknown] [--consider-flag-deps] file`** with the per-line
+    pressure vectors after scheduling given: parse, per-line data, THEN the pressures `P`, then selection,
+    graph, critical path, LCD, column sums, report -/
+def analyseWith (isa : Operand.Isa) (m : Model) (o : Opts) (file : Txt) (P : Pressures) : Outcome :=
+  match collect (parseFileOf isa file) with
+  | .error (n, e) => .parseError n e
+  | .ok fs => assemble isa m o ((linesOf isa m fs).map (withPressure P))
+
+end OsacaVerif.EndToEnd
+
+namespace OsacaVerif.Compose
+open OsacaVerif OsacaVerif.Text OsacaVerif.Operand OsacaVerif.Match OsacaVerif.Ports
+
+/-- resolved micro-ops of a `port_pressure` value (`[]` where `average_port_pressure` would raise) -/
+def resolvedOr (ports : List Txt) (pp : Y) : List Uop :=
+  match resolveList ports pp with
+  | .ok us => us
+  | .error _ => []
+
+def multOr (tbl : Option (List (Y × Y))) (regType : Option Txt) : Rat :=
+  match multiplier tbl regType with
+  | .ok q => q
+  | .error _ => 1
+
+/-- load micro-ops of the composition, carrying the load multiplier -/
+def loadUops (m : MModel) (regType : Option Txt) (i : Ins) : List Uop :=
+  if hasLd i then
+    match firstMem (i.source ++ i.srcDst) with
+    | some mem => (resolvedOr m.ports (chooseLoad m regType mem)).map (Spec.withMult (multOr m.loadMult regType))
+    | none => []
+  else []
+
+/-- store micro-ops of the composition (none for a write-back-only access), carrying the store multiplier -/
+def storeUops (m : MModel) (regType : Option Txt) (i : Ins) : List Uop :=
+  if hasSt i then
+    match firstMem (i.destination ++ i.srcDst) with
+    | some mem =>
+      (resolvedOr m.ports (if writeBackOnly m.isa i then Y.list [] else chooseStore m regType mem)).map
+        (Spec.withMult (multOr m.storeMult regType))
+    | none => []
+  else []
+
+def composeUops (m : MModel) (e : Entry) (i : Ins) (ops' : List POperand) : List Uop :=
+  match e.operands[ops'.idxOf POperand.wild]? with
+  | none => []
+  | some eop =>
+    match getRegType m.isa eop with
+    | .error _ => []
+    | .ok regType => resolvedOr m.ports e.pp ++ (loadUops m regType i ++ storeUops m regType i)
+
+/-- **the micro-ops behind the pressure vector `assign_tp_lt` stores**, resolved to port indices: the entry's
+    own micro-ops; on the composition path the register form's, then the load micro-ops (× load multiplier),
+    then the store micro-ops (× store multiplier); none for an unknown instruction or a non-instruction line.
+    `Lemmas/EndToEndOpt.lean: assignTpLt_uniform`: the stored pressure is their uniform split. -/
+def uopsOf (m : MModel) (i : Ins) : List Uop :=
+  match i.mnemonic with
+  | none => []
+  | some name =>
+    match lookupWithFallbacks m.isa m.db name i.operands with
+    | some e => resolvedOr m.ports e.pp
+    | none =>
+      if hasLd i || hasSt i then
+        let ops' := substituteMem i.operands
+        match lookupWithFallbacks m.isa m.db name ops' with
+        | some e => composeUops m e i ops'
+        | none => []
+      else []
+
+end OsacaVerif.Compose
+
+namespace OsacaVerif.EndToEnd
+open OsacaVerif OsacaVerif.Text OsacaVerif.Operand
+
+/-- the micro-ops of a parsed line -/
+def uopsOfForm (isa : Operand.Isa) (m : Model) (f : Glue.Form) : List Ports.Uop :=
+  Compose.uopsOf m.mm (stagesOf isa m f).ins
+
+/-- the micro-ops of a line of the file: a function of the MODEL and the line's TEXT -/
+def uopsOfText (isa : Operand.Isa) (m : Model) (t : Txt) : List Ports.Uop :=
+  match parseLineOf isa t with
+  | .ok f => uopsOfForm isa m f
+  | .err _ => []
+
+/-- the slack `Props.C01.steps_feasible` proves for any run of guarded balancing moves: `INC / 2` per micro-op -/
+def slackOf (us : List Ports.Uop) : Rat := Gen.balanceInc / 2 * us.length
+
+/-- **admissible pressures**: on every instruction line of the kernel the vector `P` names (`none`: the uniform one
+    the line carries) is a feasible fractional assignment (`Spec.Feasible`: one value per port, support, total,
+    Hall's condition on every port set) of THAT LINE's micro-ops, within `INC / 2` per micro-op (+ `tol`, 0 in the
+    theorems; the harness allows 1e-9 for the floating-point sums).  `k` is the kernel of the `--fixed` analysis
+    (`kernelOf`): its lines carry the uniform vectors. -/
+def Admissible (isa : Operand.Isa) (m : Model) (tol : Rat) (k : List Pipeline.PLine) (P : Pressures) : Prop :=
+  ∀ l ∈ k, l.isInstr = true →
+    Spec.Feasible (slackOf (uopsOfText isa m l.text) + tol) m.mm.ports.length (uopsOfText isa m l.text)
+      ((P l.num).getD l.sem.pressure)
+
+/-- the executable form: the inadmissible instruction lines of the kernel, each with the failing clause of
+    `Spec.checkFeasible` (`missing`: `P` names no vector for the line) -/
+def inadmissible (isa : Operand.Isa) (m : Model) (tol : Rat) (k : List Pipeline.PLine) (P : Pressures) :
+    List (Nat × String) :=
+  (k.filter (·.isInstr)).filterMap fun l =>
+    let us := uopsOfText isa m l.text
+    match P l.num with
+    | none => some (l.num, "missing")
+    | some v => (Spec.checkFeasible (slackOf us + tol) m.mm.ports.length us v).map fun c => (l.num, c)
+
+def firstInadmissible (isa : Operand.Isa) (m : Model) (tol : Rat) (k : List Pipeline.PLine) (P : Pressures) :
+    Option (Nat × String) := (inadmissible isa m tol k P).head?
+
+/-- the kernel `osaca` selects from the file (`none`: no analysis) -/
+def kernelOf (isa : Operand.Isa) (m : Model) (o : Opts) (file : Txt) : Option (List Pipeline.PLine) :=
+  match analyse isa m o file with
+  | .ok r => some r.kernel
+  | _ => none
+
+/-- **`out` is an admissible outcome of `osaca` on `file` under optimal scheduling**: the composition
+    `analyseWith` on pressures that are admissible on the selected kernel (no condition when there is no
+    analysis: the outcome is then that of `analyse`, `Props.EndToEndOpt.opt_invariant_part`) -/
+def OptimalOutcome (isa : Operand.Isa) (m : Model) (o : Opts) (file : Txt) (out : Outcome) : Prop :=
+  ∃ P : Pressures, (∀ k, kernelOf isa m o file = some k → Admissible isa m 0 k P) ∧ out = analyseWith isa m o file P
 
 end OsacaVerif.EndToEnd
